@@ -73,6 +73,12 @@ def run(rep, tier):
                     cases.append((js, cname, layout, "case_pbkdf2", (hm, 9, 7, count, ol),
                                   "pbkdf2%s count %d output %d" % ("-hmac" if hm else "", count, ol),
                                   "ascon_pbkdf2_hmac" if hm else "ascon_pbkdf2"))
+    # structural, all lengths: no size_t length loses its upper bits on the way to a bound or an address
+    from . import widths
+    rep.rule("C05.D2", "length arithmetic keeps the full width of size_t (no 32-bit mask or unguarded narrowing before control/addressing)")
+    for js, cname, layout, maxs, units in prep:
+        widths.rule(rep, "C05.D2", modes.load_module(js), cname, files=("/src/kdf/", "/src/password/", "/src/mac/"))
+    widths.control(rep, "C05.D2")
     for d in modecheck.run_cases("C05", rid, tier, cases, None):
         rep.merge(d)
     rep.floor_discharged(rid, int(0.9 * len(cases)))
